@@ -394,7 +394,7 @@ type journalKey struct {
 var journalKeys = func() []journalKey {
 	var out []journalKey
 	for slot := uint64(0); slot < 3; slot++ {
-		for _, os := range [][2]uint64{{0, 32}, {0, 4}, {4, 16}, {28, 4}} {
+		for _, os := range [][2]uint64{{0, 32}, {0, 4}, {4, 16}, {28, 4}, {8, 0}} {
 			out = append(out, journalKey{Slot: slot, Offset: os[0], Size: os[1], TypeID: 0x1000 + slot*0x100 + os[0]*4 + os[1]%32,
 				Name: string([]byte{'v', byte('0' + slot), '_', byte('a' + os[0]), byte('a' + os[1]%32)})})
 		}
